@@ -139,5 +139,14 @@ CHECKS["C10"] = dict(
     note=_TB + "; LAPACK eigh / eig are served from the harness' registry; Krylov algorithms for n = 2; LOBPCG / IRAM outside",
     technique="concolic symbolic execution of the Python source on exact rational-function terms with registered eigen-decompositions; z3 decides the "
               "magnitude-ordering inequalities, sort / mask path flips and residual equalities; float replay of path seeds")
-for _p in ["C16","C17","C18","C19"]:
+CHECKS["C16"] = dict(
+    text="svd(A, k, which, alg) with DenseSVD() / the automatic default on inputs generated from their SVD (tall, wide, square, 1-row / 1-column; real "
+         "and complex; symbolic singular values in LAPACK's descending contract order), and with a Lanczos algorithm object on 2x3 / 3x2 operators "
+         "whose small Gram matrix is in Lanczos form: U Sigma V^H == A resp. the best rank-k approximation, U^H U == I, V^H V == I, Sigma a "
+         "non-negative Diagonal; pinv(A) @ b / @ B (default, Auto(), LSTSQ(), Identity / ScalarMul / Diagonal / Permutation rules, real A with complex b) "
+         "equals V diag(1/sigma) U^H b and satisfies the normal equations, for all parameter values",
+    note=_TB + "; LAPACK svd / eigh are served from the harness' registry (inverse parametrisation); LOBPCG SVD and CG-pinv outside",
+    technique="symbolic execution of the Python source on exact rational-function terms with registered decompositions and an exact least-squares "
+              "stand-in; z3 decides residuals and sort path flips; float replay of path seeds")
+for _p in ["C17","C18","C19"]:
     NA[_p] = "check under construction in this session (not yet registered); see DESIGN.md section 5 for the plan"
